@@ -49,12 +49,28 @@ Theorem c11_logged_once_by_table :
   s_aof (snd (normal_command now s c dbi parts o)) =
   if is_logged parts then aof_push (s_aof s) dbi parts else s_aof s.
 Proof. exact nc_aof. Qed.
-(** EXEC appends the queued write commands in queue order, each once (a DISCARDed or
-    WATCH-aborted queue is never run, C07, hence never logged). *)
+(** EXEC appends the queued write commands in queue order, each once, each under the database
+    it ran in: [queue_dbs dbi q] pairs every queued command with its database - a queued SELECT
+    (it takes effect at EXEC since 1ecc022) moves the commands after it, and [push_all] puts the
+    SELECT record in front of the first write in the new database.  (A DISCARDed or WATCH-aborted
+    queue is never run, C07, hence never logged.)  [linv]: no password, no connection id 0. *)
 Theorem c11_exec_logs_in_order :
-  forall now dbi q s acc,
-  s_aof (snd (exec_queue now s dbi q acc)) = aof_push_all (s_aof s) dbi q.
+  forall now c q s dbi acc cn,
+  linv s -> zlookup c (s_conns s) = Some cn -> c_db cn = dbi ->
+  s_aof (snd (exec_queue now s c dbi q acc)) = push_all (s_aof s) (queue_dbs dbi q).
 Proof. exact exec_queue_aof. Qed.
+(** witness: MULTI; SET a 1; SELECT 1; SET b 2; GET b; EXEC; APPEND b 3 - five records, SELECT 1
+    between the two SETs, and the redo reproduces all databases *)
+Example c11_queued_select :
+  forallb (fun te => ev_ok (snd te)) queued_select_history = true /\
+  live_fresh (trace_of queued_select_history) dbs0 = true /\
+  redo_fresh 0 (aof_log (run_tevs queued_select_history)) (0, dbs0) = true /\
+  aof_log (run_tevs queued_select_history) =
+    [aof_select 0; [FBulk (bs "SET"); FBulk (bs "a"); FBulk (bs "1")];
+     aof_select 1; [FBulk (bs "SET"); FBulk (bs "b"); FBulk (bs "2")]; [FBulk (bs "APPEND"); FBulk (bs "b"); FBulk (bs "3")]] /\
+  s_dbs (replay 0 (aof_log (run_tevs queued_select_history))) = s_dbs (run_tevs queued_select_history) /\
+  len (d_data (get_db (run_tevs queued_select_history) 1)) = 1.
+Proof. exact queued_select_history_ok. Qed.
 (** The file of a whole history - any connections, databases, transactions - is exactly the
     records of its executed commands [trace_of h] (each with the database it ran in): the
     logged ones in execution order, each once, a SELECT record wherever the database changes. *)
